@@ -13,7 +13,8 @@ def Val.inSets (S C : Nat → Prop) : Val → Prop
   | .cell c => C c
   | _ => True
 
-def Watcher.inSet (S : Nat → Prop) (wt : Watcher) : Prop := S wt.inst ∧ S wt.fn.owner
+def Watcher.inSet (S : Nat → Prop) (wt : Watcher) : Prop :=
+  S wt.inst ∧ S wt.fn.owner ∧ ∀ cb : Nat × Option String, wt.fn.callback = some cb → S cb.1
 
 /-- every object / list the record refers to (values, ordinary attributes, watcher tables) is in `S` / `C` -/
 structure Obj.refsIn (S C : Nat → Prop) (ob : Obj) : Prop where
@@ -278,22 +279,40 @@ theorem mem_dedupN {x : Nat} : ∀ {l : List Nat}, x ∈ dedupN l → x ∈ l
     · exact Or.inl h
     · exact Or.inr (mem_dedupN h)
 
+theorem pathContribs_inSet {w : World} {S C : Nat → Prop} (hc : Closed w S C) :
+    ∀ (ps : List String) (d cur : Nat), S cur → ∀ c ∈ w.pathContribs d cur ps, S c.inst
+  | [], d, cur, _, c, h => by simp [World.pathContribs] at h
+  | [x], d, cur, hcur, c, h => by
+    simp [World.pathContribs] at h; subst h; exact hcur
+  | a :: b :: rest, 0, cur, hcur, c, h => by
+    simp only [World.pathContribs] at h
+    split at h
+    · rename_i s hs
+      have hss : S s := getVal_inSets hc hcur hs
+      simp only [List.mem_cons] at h
+      rcases h with rfl | h
+      · exact hcur
+      · exact pathContribs_inSet hc (b :: rest) 1 s hss c h
+    · simp at h
+  | a :: b :: rest, d + 1, cur, hcur, c, h => by
+    simp only [World.pathContribs, List.mem_cons] at h
+    rcases h with rfl | h
+    · exact hcur
+    · split at h
+      · rename_i s hs
+        exact pathContribs_inSet hc (b :: rest) (d + 2) s (getVal_inSets hc hcur hs) c h
+      · simp at h
+
 theorem dynContribs_inSet {w : World} {S C : Nat → Prop} {o : Nat} (hc : Closed w S C) (ho : S o) :
     ∀ (deps : List Dep), ∀ c ∈ w.dynContribs o deps, S c.inst
   | [], c, h => by simp [World.dynContribs] at h
   | .own _ :: rest, c, h => by
     simp only [World.dynContribs] at h
     exact dynContribs_inSet hc ho rest c h
-  | .sub a x :: rest, c, h => by
-    simp only [World.dynContribs] at h
-    split at h
-    · rename_i s hs
-      have hss : S s := getVal_inSets hc ho hs
-      simp only [List.mem_cons] at h
-      rcases h with rfl | rfl | h
-      · exact ho
-      · exact hss
-      · exact dynContribs_inSet hc ho rest c h
+  | .path ps :: rest, c, h => by
+    simp only [World.dynContribs, List.mem_append] at h
+    rcases h with h | h
+    · exact pathContribs_inSet hc ps 0 o ho c h
     · exact dynContribs_inSet hc ho rest c h
 
 theorem touchAll_good {S C : Nat → Prop} : ∀ (l : List (Nat × String)) (w : World), Closed w S C → Fresh w C →
@@ -304,32 +323,39 @@ theorem touchAll_good {S C : Nat → Prop} : ∀ (l : List (Nat × String)) (w :
     have g1 := touchParam_good (p := p) hc (h (o, p) (by simp)) hf
     exact g1.trans (touchAll_good rest _ g1.closed (g1.fresh hf) (fun e he => h e (by simp [he])))
 
-theorem installGroups_good {S C : Nat → Prop} {o : Nat} {m : String} {cs : List Contribution} (ho : S o) :
+theorem installGroups_good {S C : Nat → Prop} {o : Nat} {m : String} {attr : Option String} {cs : List Contribution}
+    (ho : S o) :
     ∀ (gs : List Nat) (w w' : World) (ws : List Watcher), Closed w S C → (∀ g ∈ gs, S g) →
-    World.installGroups w o m cs gs = (w', ws) → Good w w' S C ∧ ∀ wt ∈ ws, wt.inSet S
+    World.installGroups w o m attr cs gs = (w', ws) → Good w w' S C ∧ ∀ wt ∈ ws, wt.inSet S
   | [], w, w', ws, hc, _, h => by
     simp [World.installGroups] at h; obtain ⟨rfl, rfl⟩ := h
     exact ⟨Good.refl hc, by simp⟩
   | g :: gs, w, w', ws, hc, hg, h => by
     simp only [World.installGroups, mkCaller] at h
-    generalize hr : World.installGroups _ o m cs gs = r at h
+    generalize hr : World.installGroups _ o m attr cs gs = r at h
     obtain ⟨w2, rest⟩ := r
     simp at h; obtain ⟨rfl, rfl⟩ := h
     have hgs : S g := hg g (by simp)
     have g1 := nextPid_good hc (w.nextPid + 1)
-    have g2 : Good _ (World.addWatcher { w with nextPid := w.nextPid + 1 }
-        ⟨g, ⟨.mcaller, o, m, some (groupChanged cs g), w.nextPid⟩, groupNames cs g, -1⟩) S C :=
-      addWatcher_good g1.closed ⟨hgs, ho⟩
+    have hin : Watcher.inSet S ⟨g, ⟨.mcaller, o, m, some (groupChanged cs g), w.nextPid,
+        if groupCallback cs g then some (o, attr) else Option.none⟩, groupNames cs g, -1⟩ := by
+      refine ⟨hgs, ho, ?_⟩
+      intro cb hcb
+      simp only at hcb
+      split at hcb
+      · simp at hcb; rw [← hcb]; exact ho
+      · simp at hcb
+    have g2 := addWatcher_good g1.closed hin
     obtain ⟨g3, hws⟩ := installGroups_good ho gs _ _ _ g2.closed (fun x hx => hg x (by simp [hx])) hr
     refine ⟨(g1.trans g2).trans g3, ?_⟩
     intro wt hwt
     simp only [List.mem_cons] at hwt
     rcases hwt with rfl | hwt
-    · exact ⟨hgs, ho⟩
+    · exact hin
     · exact hws wt hwt
 
-theorem installDyn_good {w w' : World} {S C : Nat → Prop} {o : Nat} {md : MethodDef} {dynw : List Watcher}
-    (hc : Closed w S C) (ho : S o) (hf : Fresh w C) (h : w.installDyn o md = (w', dynw)) :
+theorem installDyn_good {w w' : World} {S C : Nat → Prop} {o : Nat} {attr : Option String} {md : MethodDef} {dynw : List Watcher}
+    (hc : Closed w S C) (ho : S o) (hf : Fresh w C) (h : w.installDyn o attr md = (w', dynw)) :
     Good w w' S C ∧ ∀ wt ∈ dynw, wt.inSet S := by
   unfold World.installDyn at h
   have hcs := dynContribs_inSet hc ho md.deps
@@ -361,8 +387,8 @@ theorem installConst_good {w : World} {S C : Nat → Prop} {o : Nat} {md : Metho
     have g2 := nextPid_good g1.closed ((w.touchAll (ps.map fun p => (o, p))).nextPid + 1)
     have g3 : Good _ (World.addWatcher { (w.touchAll (ps.map fun p => (o, p))) with
           nextPid := (w.touchAll (ps.map fun p => (o, p))).nextPid + 1 }
-        ⟨o, ⟨.mcaller, o, md.name, Option.none, (w.touchAll (ps.map fun p => (o, p))).nextPid⟩, ps, -1⟩) S C :=
-      addWatcher_good g2.closed ⟨ho, ho⟩
+        ⟨o, ⟨.mcaller, o, md.name, Option.none, (w.touchAll (ps.map fun p => (o, p))).nextPid, Option.none⟩, ps, -1⟩) S C :=
+      addWatcher_good g2.closed ⟨ho, ho, by simp⟩
     exact (g1.trans g2).trans g3
 
 theorem setDyn_good {w : World} {S C : Nat → Prop} {o : Nat} {m : String} {dynw : List Watcher}
@@ -384,7 +410,7 @@ theorem unwatchAll_good {S C : Nat → Prop} : ∀ (old : List Watcher) (w : Wor
     have g1 := unwatch_good (wt := wt) hc (h wt (by simp))
     exact g1.trans (unwatchAll_good rest _ g1.closed (fun x hx => h x (by simp [hx])))
 
-theorem updateDeps_good {S C : Nat → Prop} {o : Nat} {attr : String} (ho : S o) :
+theorem updateDeps_good {S C : Nat → Prop} {o : Nat} {attr : Option String} (ho : S o) :
     ∀ (mds : List MethodDef) (w : World), Closed w S C → Fresh w C → Good w (w.updateDeps o attr mds) S C
   | [], w, hc, _ => by simp only [World.updateDeps]; exact Good.refl hc
   | md :: rest, w, hc, hf => by
@@ -407,7 +433,7 @@ theorem updateDeps_good {S C : Nat → Prop} {o : Nat} {attr : String} (ho : S o
       have g2 := unwatchAll_good (((w.objs[o]?).bind (fun ob => lookup ob.dyn md.name)).getD []) _ g1.closed hold
       generalize hi : World.installDyn (List.foldl (fun w wt => w.unwatch wt)
         (w.setObj o fun ob => { ob with dyn := erase ob.dyn md.name })
-        (((w.objs[o]?).bind (fun ob => lookup ob.dyn md.name)).getD [])) o md = r
+        (((w.objs[o]?).bind (fun ob => lookup ob.dyn md.name)).getD [])) o attr md = r
       obtain ⟨w3, dynw⟩ := r
       obtain ⟨g3, hd⟩ := installDyn_good g2.closed ho ((g1.trans g2).fresh hf) hi
       simp only
@@ -424,7 +450,7 @@ theorem initDeps_good {S C : Nat → Prop} {o : Nat} (ho : S o) :
   | md :: rest, w, hc, hf => by
     simp only [World.initDeps]
     have g0 := installConst_good (md := md) hc ho hf
-    generalize hi : (w.installConst o md).installDyn o md = r
+    generalize hi : (w.installConst o md).installDyn o Option.none md = r
     obtain ⟨w1, dynw⟩ := r
     obtain ⟨g1, hd⟩ := installDyn_good g0.closed ho (g0.fresh hf) hi
     simp only
